@@ -4,7 +4,7 @@ import vf
 PARTS = [
     dict(prefix="cat:", imports=["From ZV Require Import Lib.Base Model.Catfile."], case_type="c14ccase", mismatch_fn="c14c_mismatches", tag="c"),
     dict(prefix="slab:", imports=["From ZV Require Import Lib.Base Model.Catfile."], case_type="c14scase", mismatch_fn="c14s_mismatches", tag="s"),
-    dict(prefix="git:", imports=["From ZV Require Import Lib.Base Model.DirWalk Model.Catfile Model.GitWalk."], case_type="c14gcase", mismatch_fn="c14g_mismatches", tag="g"),
+    dict(prefix="git:", imports=["From ZV Require Import Lib.Base Model.IgnoreFile Model.DirWalk Model.Catfile Model.GitWalk."], case_type="c14gcase", mismatch_fn="c14g_mismatches", tag="g"),
 ]
 
 RULE = ("VERIF_N = n: 3n synthetic cat-file response streams (0-5 responses: present with empty / newline-only / header-looking / NUL / long "
@@ -20,7 +20,7 @@ TRUSTED = [
     "correspondence harness harness/overlay/gitindex/zz_verif_c14_test.go (generators, canonicalisation, Go oracles incl. the git CLI: ls-tree, cat-file)",
     "go-git (object access, TreeWalker: a branch enters the model as the list of entries the recursive walker yields) and the `git cat-file --batch` output format",
     "bufio.Reader: modelled as the unread remainder of the stream plus a per-call hand-over amount >= 1",
-    "the glob matchers (ignore file via gobwas/glob, LargeFiles via doublestar): verdict functions, instantiated with the real matchers' verdicts",
+    "the glob engines (ignore file: gobwas/glob as a verdict function glob(pattern, path), instantiated with the real engine's verdicts; LargeFiles: doublestar via Options.IgnoreSizeMax's verdicts); the ignore file's line syntax and its lookup in the tree ARE modelled (Model/IgnoreFile.v, tree_ignore_content)",
     "index.Builder / shard writer / searcher round trip; Builder.Add's skip rewriting is modelled except the too-many-trigrams rule",
     "submodule recursion (Options.Submodules) and delta builds are outside the model",
 ]
